@@ -147,7 +147,12 @@ func TestVtraceWorkload(t *testing.T) {
 		contents = append(contents, "C")
 	}
 	which := os.Getenv("VERIF_VT_ROUTINES") // comma list; empty = all
-	want := func(r string) bool { return which == "" || strings.Contains(","+which+",", ","+r+",") }
+	want := func(r string) bool {
+		if !asmDirectAvailable && (r == "sealAsm" || r == "openAsm" || r == "copyAsm" || r == "needExpand") {
+			return false // their declarations are not the ones the monitors were written for (tag verifnoasm)
+		}
+		return which == "" || strings.Contains(","+which+",", ","+r+",")
+	}
 
 	// ---------------------------------------------------------------- expandKeyAsm
 	if want("expandKeyAsm") && c.takeConfig() {
@@ -231,7 +236,7 @@ func TestVtraceWorkload(t *testing.T) {
 			id := c.emit(&vtPlan{Routine: "copyAsm", Config: fmt.Sprintf("len=%d", n), Class: "all", Content: cn,
 				Bufs: map[string]vtBuf{"src": c.buf(c.src, n), "dst": c.buf(c.dst, n)}, Secret: []string{"src"}})
 			vtMark(id)
-			copyAsm(&c.dst[0], &c.src[0], n)
+			vCopyAsm(&c.dst[0], &c.src[0], n)
 		}
 	}
 	for _, sh := range [][3]int{{0, 0, 0}, {0, 0, 16}, {5, 40, 35}, {5, 40, 36}, {16, 16, 1}, {0, 28, 28}} {
@@ -244,7 +249,7 @@ func TestVtraceWorkload(t *testing.T) {
 			id := c.emit(&vtPlan{Routine: "needExpand", Config: fmt.Sprintf("len=%d,cap=%d,asked=%d", sh[0], sh[1], sh[2]), Class: "all", Content: cn,
 				Bufs: map[string]vtBuf{"array": c.buf(c.dst, sh[1])}, Secret: []string{"array"}})
 			vtMark(id)
-			vtSink += uint64(needExpand(arr, sh[2]))
+			vtSink += uint64(vNeedExpand(arr, sh[2]))
 		}
 	}
 	// ---------------------------------------------------------------- sealAsm / openAsm
@@ -322,7 +327,7 @@ func TestVtraceWorkload(t *testing.T) {
 				id := c.emit(&vtPlan{Routine: "sealAsm", Config: cfgName, Class: "seal", Content: x.name, Bufs: bufs("plaintext", g.pl, g.pl+g.tag),
 					Secret: []string{"obj", "plaintext", "nonce", "aad"}})
 				vtMark(id)
-				sealAsm(c.enc(), g.tag, &c.dst[0], c.nonce[:g.nl], c.src[:g.pl], c.aad[:g.al], &c.temp[0])
+				vSealAsm(c.enc(), g.tag, &c.dst[0], c.nonce[:g.nl], c.src[:g.pl], c.aad[:g.al], &c.temp[0])
 			}
 		}
 		if want("openAsm") {
@@ -364,7 +369,7 @@ func TestVtraceWorkload(t *testing.T) {
 				id := c.emit(&vtPlan{Routine: "openAsm", Config: cfgName, Class: p.class, Content: p.name, Bufs: bufs("ciphertext", g.pl+g.tag, g.pl+1),
 					Secret: []string{"obj", "ciphertext", "nonce", "aad"}, Ret: ret})
 				vtMark(id)
-				got := openAsm(c.enc(), g.tag, &c.dst[0], c.nonce[:g.nl], c.src[:g.pl+g.tag], c.aad[:g.al], &c.temp[0])
+				got := vOpenAsm(c.enc(), g.tag, &c.dst[0], c.nonce[:g.nl], c.src[:g.pl+g.tag], c.aad[:g.al], &c.temp[0])
 				if got != *ret {
 					// the functional result is C07's business; record it so that the monitor can flag a mislabelled class
 					c.emit(&vtPlan{Routine: "openAsm", Config: cfgName, Class: "unexpected-verdict", Content: p.name, Ret: &got})
